@@ -1,7 +1,7 @@
 """C05 — no frontend input can crash the backend or reach the handler unvalidated."""
 from .srv import SrvFamily
 
-PROPS_MODULES = ["C05", "C05Args", "Dispatch"]
+PROPS_MODULES = ["C05", "C05Args", "Dispatch", "Helpers"]
 RULE = ("family `srv` (malformed + well-formed modes): grammar-aware mutations of valid requests (size/flags/code/body field "
         "perturbed to boundary values, truncated/extended bodies, 0..40 descriptors, raw garbage, early close) after every "
         "negotiation prefix, fed to the real BackendReqHandler built with overflow checks and debug assertions; a panic is a "
